@@ -77,6 +77,8 @@ struct FCtx<'a> {
     reserved: Vec<u32>,
     /// > 0 while generating inside an `Expr::If` / `Expr::Block`
     in_expr_ctrl: u32,
+    /// result type of the function being generated
+    result: Option<Ty>,
 }
 
 const I32_BIN: [u8; 15] = [0x6a, 0x6b, 0x6c, 0x6d, 0x6e, 0x6f, 0x70, 0x71, 0x72, 0x73, 0x74, 0x75, 0x76, 0x77, 0x78];
@@ -486,6 +488,12 @@ impl FCtx<'_> {
                     Stmt::Nop
                 }
             }
+            _ if self.rng.chance(1, 5) => {
+                // a return from inside whatever blocks enclose this statement, guarded so that the rest stays live
+                let c = self.expr(Ty::I32, d + 1);
+                let r = self.result.map(|t| self.expr(t, d + 1));
+                Stmt::If(c, vec![Stmt::Return(r)], Vec::new())
+            }
             _ => match self.branch_target() {
                 // an unconditional branch guarded by a condition so that the rest stays live
                 Some(t) if self.rng.chance(1, 3) => {
@@ -627,8 +635,9 @@ pub fn gen_module(rng: &mut Rng, opts: GenOpts) -> Module {
             init:    rng.next_u64() as i64 >> rng.below(60),
         })
         .collect();
-    let init_pages = rng.range(1, 2) as u32;
-    let max_pages = Some(init_pages + rng.range(0, 3) as u32);
+    // now and then a memory that starts empty (no data segments then) and has to be grown before use
+    let init_pages = if rng.chance(1, 10) { 0 } else { rng.range(1, 2) as u32 };
+    let max_pages = Some(init_pages + rng.range(if init_pages == 0 { 1 } else { 0 }, 3) as u32);
     let all_hosts = table.iter().flatten().all(|t| matches!(t, TRef::Host(_)));
     let mut funcs = Vec::new();
     for fi in 0..nfuncs {
@@ -655,6 +664,7 @@ pub fn gen_module(rng: &mut Rng, opts: GenOpts) -> Module {
             mem_mask: 0xff8,
             reserved: Vec::new(),
             in_expr_ctrl: 0,
+            result: sig.result,
         };
         let body = ctx.stmts(0, if fi == 0 { 8 } else { 4 });
         let ret = sig.result.map(|t| ctx.expr(t, 1));
@@ -667,7 +677,7 @@ pub fn gen_module(rng: &mut Rng, opts: GenOpts) -> Module {
         });
     }
     // 0-3 data segments; later ones may overlap earlier ones and end in zero bytes
-    let nseg = *rng.pick(&[0usize, 1, 1, 2, 3]);
+    let nseg = if init_pages == 0 { 0 } else { *rng.pick(&[0usize, 1, 1, 2, 3]) };
     let mut data: Vec<Data> = Vec::new();
     for k in 0..nseg {
         let offset = if k > 0 && rng.chance(2, 3) {
@@ -709,7 +719,8 @@ pub fn gen_module(rng: &mut Rng, opts: GenOpts) -> Module {
         globals,
         table,
         data,
-        epilogue_addr: Some(0x2000),
+        // (the epilogue stores the globals to memory: not into a memory that may still be empty)
+        epilogue_addr: if init_pages == 0 { None } else { Some(0x2000) },
     }
 }
 
